@@ -122,7 +122,7 @@ type C09 struct{}
 func (e *C09) ID() string    { return "C09" }
 func (e *C09) Level() string { return "exploration" }
 func (e *C09) Rule() string {
-	return "section A (exhaustive): every single-byte perturbation (24 positions x 256 values) of each of the 31 canonical headers; section B: every canonical header followed by random suffixes of length 0..8 KiB and every truncation to 0..23 bytes; section C: seeded random 24-byte strings and two-byte perturbations. Every stream goes through Buf(b), Buf(b[:24]), Scan, ScanBuf and ReadAt. Oracle: all five agree on the type and on the error class; bytes beyond 24 do not matter; ScanBuf leaves the whole stream readable; fewer than 24 bytes gives an error and no type; ErrImageTypeNotFound exactly when the type is unknown; a reported type F requires F's signature per the harness's independent table (liberal form); a header carrying exactly one documented standard signature (strict form, with the documented precedences CR2 over TIFF, major brand among ftyp formats) must be reported as that format; where two signatures match without a documented precedence either is accepted. Non-trivial: the header is within two bytes of a canonical header; distinct = (nearest canonical header, position, result)."
+	return "section A (exhaustive): every single-byte perturbation (24 positions x 256 values) of each of the 31 canonical headers; section B: every canonical header followed by random suffixes of length 0..8 KiB and every truncation to 0..23 bytes; section C: seeded random 24-byte strings and two-byte perturbations. Every stream goes through Buf(b), Buf(b[:24]), Scan, ScanBuf and ReadAt, and again through Scan and ScanBuf over readers that deliver it one byte at a time, in uneven short reads, and with the last bytes together with io.EOF. Oracle: all five agree on the type and on the error class; bytes beyond 24 do not matter; ScanBuf leaves the whole stream readable; fewer than 24 bytes gives an error and no type; ErrImageTypeNotFound exactly when the type is unknown; a reported type F requires F's signature per the harness's independent table (liberal form); a header carrying exactly one documented standard signature (strict form, with the precedences CR2 and CRW over TIFF (more specific over generic), major brand among ftyp formats) must be reported as that format; where two signatures match without a documented precedence either is accepted. Non-trivial: the header is within two bytes of a canonical header; distinct = (nearest canonical header, position, result)."
 }
 func (e *C09) Assumptions() []string {
 	return []string{"the signature table is the harness's own, written from the format definitions cited in the package comments; JPEG 2000 is reported as image/jpeg (pinned by the existing test suite)"}
@@ -156,6 +156,25 @@ func sniffAll(c *core.Ctx, b []byte) (imagetype.ImageType, bool) {
 	rest, _ := io.ReadAll(br)
 	rs[4].t, rs[4].err = imagetype.ReadAt(mon.NewRS(b))
 	c.Rec.Eval(5)
+	// the same stream delivered in pieces (one byte at a time, uneven short reads, last bytes
+	// together with io.EOF): a sniffer that trusts a single Read would disagree with itself
+	for k, sched := range [][]int{{1}, {10, 3, 7, 1}, nil} {
+		r1 := mon.NewRS(b)
+		r1.Sched = sched
+		r1.EOFWithData = sched == nil
+		t1, e1 := imagetype.Scan(mon.OnlyReader{R: r1})
+		r2 := mon.NewRS(b)
+		r2.Sched = sched
+		r2.EOFWithData = sched == nil
+		t2, e2 := imagetype.ScanBuf(bufio.NewReaderSize(mon.OnlyReader{R: r2}, 32))
+		c.Rec.Eval(2)
+		if t1 != rs[0].t || (e1 == nil) != (rs[0].err == nil) {
+			c.Rec.Violation("sniff:chunked:Scan", fmt.Sprintf("Scan over a reader with schedule #%d reports %v/%v but Buf(b) reports %v/%v header=%x len=%d", k, t1, e1, rs[0].t, rs[0].err, b[:min(len(b), 24)], len(b)), map[string]any{"header_hex": fmt.Sprintf("%x", b[:min(len(b), 24)]), "len": len(b), "schedule": k})
+		}
+		if t2 != rs[0].t || (e2 == nil) != (rs[0].err == nil) {
+			c.Rec.Violation("sniff:chunked:ScanBuf", fmt.Sprintf("ScanBuf over a reader with schedule #%d reports %v/%v but Buf(b) reports %v/%v header=%x len=%d", k, t2, e2, rs[0].t, rs[0].err, b[:min(len(b), 24)], len(b)), map[string]any{"header_hex": fmt.Sprintf("%x", b[:min(len(b), 24)]), "len": len(b), "schedule": k})
+		}
+	}
 	ok := true
 	viol := func(key, msg string) {
 		ok = false
@@ -226,8 +245,11 @@ func checkSignature(c *core.Ctx, h []byte, t imagetype.ImageType) {
 	for _, f := range strict {
 		acc[f.it] = true
 	}
-	if has("cr2") {
-		delete(acc, imagetype.ImageTiff) // the more specific format wins over the generic one
+	if has("cr2") || has("crw") {
+		// the more specific format wins over the generic one: CR2 (TIFF + CR marker) and CRW (byte
+		// order + the ten-byte HEAPCCDR signature; it overlaps the four-byte TIFF magic only when
+		// its header-length field happens to be 42) over plain TIFF
+		delete(acc, imagetype.ImageTiff)
 	}
 	if has("cr3") { // chosen by major brand
 		delete(acc, imagetype.ImageAVIF)
